@@ -10,6 +10,7 @@ CONSTANTS
   OrphanMetaKept = FALSE
   CorruptIgnoresMeta = FALSE
   MayRelease = FALSE
+  DropBeforeDrain = FALSE
 INVARIANTS GenCase
 CONSTRAINT Bounded
 CHECK_DEADLOCK FALSE
